@@ -322,7 +322,7 @@ theorem C11_relearn_counterexample :
     localDelta, own, deltaEntry, sortByVersion, AMap.vals, applyDelta, applyDeltaEntry,
     applyEntries, applyEntry, applyDigest, applyDigestEntry, digest, sortDigest, delta, sortDelta,
     List.mergeSort, updateLiveness, livenessStep, removeExpiredAt, AMap.filterV, isExpiredAt,
-    setNode, nodeExpiry, selectIdx, Net.nodeByAddr, handleDigest,
+    setNode, nodeExpiry, Facts.nodeExpiryNs, selectIdx, Net.nodeByAddr, handleDigest,
     List.MergeSort.Internal.splitInTwo, upsertLocal, writeOwn, setOwn, cutDelta]
 
 /-- What does hold: a node absent from a (well-formed) state is added only by a digest
@@ -519,13 +519,13 @@ theorem C11_silent_peer_forgotten
     (∀ t, t ≤ now + nodeExpiry →
       (removeExpiredAt (laterTicks θ (livenessTick d θ now s).1 later) t).1.nodes.find p ≠ none ∧
       Event.expired p ∉ (removeExpiredAt (laterTicks θ (livenessTick d θ now s).1 later) t).2) ∧
-    Facts.nodeExpiryNs = some nodeExpiry ∧ nodeExpiry = 60 * 1000000000 := by
+    Facts.nodeExpiryNs = some nodeExpiry ∧ 0 < nodeExpiry := by
   obtain ⟨n', h1, _, h3, _, h5, h6, _⟩ := tick_flags hwf (suspectedBy d θ now) now hf hid hl hs
   have hwf₁ : WF (livenessTick d θ now s).1 := wf_updateLiveness hwf _ now
   have hlid₁ : (livenessTick d θ now s).1.localId = s.localId := (updateLiveness_basic hwf _ now).1
   obtain ⟨a, _, c⟩ := laterTicks_keep later hlater hwf₁ h1 (by rw [hlid₁]; exact hid) h3 h5
   have hexp := h6 hu
-  refine ⟨a, ⟨n', c, h5, hexp⟩, fun t ht => ?_, fun t ht => ?_, by decide, rfl⟩
+  refine ⟨a, ⟨n', c, h5, hexp⟩, fun t ht => ?_, fun t ht => ?_, by decide, by decide⟩
   · obtain ⟨e1, _, _, e4, _⟩ := C11_expiry _ a t p
     exact ⟨e1 n' c ⟨_, hexp, ht⟩, e4.mpr ⟨n', c, _, hexp, ht⟩⟩
   · obtain ⟨_, e2, _, e4, _⟩ := C11_expiry _ a t p
